@@ -7,6 +7,7 @@
         one protocol table seen through PacketID(of) / CreatePacket(id)          -> Bijective
    {"ev":"cell","state","dir","proto","t","id"}   id (or -1) of a type gate registers in this
         state and direction                                                       -> SharedAgree
+   {"ev":"ctable"/"ccell", ...}   the same, for tables handed out by concurrent / alternating lookups
    {"ev":"unknown","state","dir","proto","none","byType","byId","reports"}
         resolution of a protocol gate does not know                               -> Fallback
    {"ev":"reg","a":[{id,from,last}],"b":[...],"panicA","panicB","tabA":[{p,id}],"tabB","inv":[{p,id,w}]}
@@ -54,6 +55,21 @@ TCell ==
              /\ GoMcAgree(gm, Rec.state, Rec.dir, Rec.t, Rec.proto, Rec.id))
     /\ UNCHANGED <<tc, vers, gm, minTab>>
 
+(* The same two judgements on what CONCURRENT lookups were handed: several goroutines resolve
+   different protocols of one state and direction at the same moment (and one goroutine
+   alternates between protocols); for every distinct (requested protocol, table handed out)
+   pair the table is read as above and judged as the table of the REQUESTED protocol. *)
+TCTable ==
+    /\ IsEv("ctable")
+    /\ Judge(Rec.reports = Rec.proto /\ Bijective(Rec.byType, Rec.byId))
+    /\ UNCHANGED <<tc, vers, gm, minTab>>
+
+TCCell ==
+    /\ IsEv("ccell")
+    /\ Judge(/\ RefAgree(Rec.state, Rec.dir, Rec.t, Rec.proto, Rec.id)
+             /\ GoMcAgree(gm, Rec.state, Rec.dir, Rec.t, Rec.proto, Rec.id))
+    /\ UNCHANGED <<tc, vers, gm, minTab>>
+
 (* Fallback: a protocol that is not supported resolves to the table of the lowest supported
    protocol.  The play registries switch the fallback off (as the reference does), so there
    "no table" is accepted as well; a table, if one is returned, must still be the lowest one. *)
@@ -87,7 +103,7 @@ TReg ==
                                        \cup {[p |-> x.p, id |-> x.id, w |-> "B"] : x \in Table(b)})
     /\ UNCHANGED <<tc, vers, gm, minTab>>
 
-TNext == TVersions \/ TGoMc \/ TTable \/ TCell \/ TUnknown \/ TReg
+TNext == TVersions \/ TGoMc \/ TTable \/ TCell \/ TCTable \/ TCCell \/ TUnknown \/ TReg
 TSpec == /\ tc = [a |-> <<>>, b |-> <<>>] /\ vers = <<>> /\ gm = <<>>
          /\ minTab = ("none" :> [byType |-> <<>>, byId |-> <<>>])
          /\ CursorInit /\ TLCSet(2, 0) /\ [][TNext]_tvars
